@@ -2,6 +2,10 @@
 """Regenerates the seed table of DESIGN.md section 0.5 from seeded/*/meta.json (descriptions kept here)."""
 import json,glob,os,re
 desc={
+"C27-a":("`varint_len` / `encode_varint` share a 3-byte range limit that is one too large (67824 instead of 67823)","the single value 67824"),
+"C26-b":("`encode_vector` sign test `is_sign_negative()` → `< 0.0`","a vector component exactly `-0.0`"),
+"C34-b":("`create_new_trunk` no longer counts the new trunk page in `free_count`","more free pages than one trunk holds (second trunk)"),
+"C11-a":("`parse_time` pads the fractional seconds on the left (`{:0>6}`)","TIME/TIMESTAMP literal with a 1..5 digit fraction"),
 "C26-a":("`encode_float` zero test `f == 0.0` → `abs() < EPSILON`","positive float < 2.2e-16"),
 "C28-a":("`update_cell_value_shrink` writes the value at the old varint width","shrink across 240/241 bytes"),
 "C28-b":("`try_fastpath_insert` no longer re-checks `next_leaf == 0`","persisted hint gone stale"),
@@ -25,6 +29,7 @@ desc={
 "C32-a":("`JsonbView::get` compares keys bytewise with the length tie-break reversed","object keys in a proper-prefix relation (`id` / `id_type`)"),
 }
 why={
+"C11-a":"literal parsing (`parse_time`, built on `format!`, which every harness stubs) is outside the TOAST-pointer kernel C11 claims",
 "C29-b":"split_leaf (bump-arena vectors) did not terminate under CBMC even with concrete keys (25 min symex, harness removed)",
 "C20-a":"string functions are outside the C20 claim: a probe harness on LOCATE with a concrete string timed out in `str::find`'s two-way searcher",
 "C08-a":"whole transaction / undo path over real files; C08 is claimed at kernel level only",
